@@ -21,9 +21,20 @@ Fixpoint lower_str (s : string) : string :=
 Definition register_spec (specs : list (string * Z)) (qtype : string) (spec : Z) : option (list (string * Z)) :=
   if existsb (fun e => String.eqb (fst e) (lower_str qtype)) specs then None else Some ((lower_str qtype, spec) :: specs).
 
+(* MsgRemoveSelector (anybody may send it): the selection is deleted only if the selector's bonded stake
+   is below the reporter's minimum and the reporter holds more selectors than the cap *)
+Definition remove_selector (selections : list (Z * Z)) (selector : Z) (stake mn nsel cap : Z) : option (list (Z * Z)) :=
+  if (stake <? mn) && (cap <? nsel) then Some (filter (fun e => negb (fst e =? selector)) selections) else None.
+
 Inductive c19_case :=
 | PrivCase (name : string) (by_authority accepted state_changed : bool)
-| GuardCase (handlers : list (string * bool)).
+| GuardCase (handlers : list (string * bool))
+(* a query type [registered] has a spec; MsgRegisterSpec is sent with the spelling [attempt] and another
+   spec: was it accepted, and is the spec stored for [registered] still the original one? *)
+| RegCase (registered attempt : string) (accepted original_spec_changed : bool)
+(* MsgRemoveSelector sent by a third party for a selector whose bonded stake (recomputed from the
+   staking keeper) is [stake], whose reporter asks for [min], has [nsel] selectors under cap [cap] *)
+| RemoveCase (stake min nsel cap : Z) (accepted selection_changed : bool).
 
 Definition c19_check (c : c19_case) : issues :=
   match c with
@@ -32,6 +43,15 @@ Definition c19_check (c : c19_case) : issues :=
       ++ spec_if (accepted || negb changed) ("a rejected privileged message changed state: " ++ name)
   | GuardCase hs =>
       diff_if (forallb snd hs) "a governance-gated handler does not start with the authority comparison"
+  | RegCase registered attempt accepted changed =>
+      spec_if (negb changed) "a registered data spec was replaced by a re-registration"
+      ++ diff_if (Bool.eqb accepted (match register_spec [(lower_str registered, 1)] attempt 2 with Some _ => true | None => false end))
+                 "MsgRegisterSpec accept/reject"
+  | RemoveCase stake mn nsel cap accepted changed =>
+      spec_if (negb accepted || ((stake <? mn) && (cap <? nsel)))
+              "somebody else removed a selector that meets its reporter's minimum or whose reporter is not over the selector cap"
+      ++ spec_if (accepted || negb changed) "a rejected MsgRemoveSelector changed the selection"
+      ++ diff_if (Bool.eqb accepted (match remove_selector [] 0 stake mn nsel cap with Some _ => true | None => false end)) "MsgRemoveSelector accept/reject"
   end.
 
 Definition c19_classes (c : c19_case) : list string := [].
